@@ -69,8 +69,10 @@ pub fn c09_c10(d: &Digest, s: usize, out: &mut Vec<Violation>) {
                     let took = d.ev[..late.4]
                         .iter()
                         .rposition(|e| Some(e.tid) == sd.rtid && matches!(&e.k, K::ChRecv { chan, .. } if Some(*chan) == sd.dchan));
+                    // (a tree whose dispatch queue is not a channel shows no take: nothing to narrow by)
                     let began_before = took.map(|t| t < uret).unwrap_or(false)
-                        || pos.get(&late.0).map(|p| sd.insts[p[0]].first < uret).unwrap_or(false);
+                        || pos.get(&late.0).map(|p| sd.insts[p[0]].first < uret).unwrap_or(false)
+                        || sd.dchan.is_none();
                     let msg = format!("store {s}: subscriber {sub} was notified of action {} after unsubscribe() had returned", late.0);
                     if !channeled && began_before {
                         vk(out, "C09", "notified-after-unsubscribe", msg, "F1");
